@@ -17,6 +17,8 @@ import (
 type skelSpec struct {
 	lean, dir, name string
 	calls           string // regexp over printed callee for calls worth recording
+	assigns         string // optional regexp over the printed left-hand side of assignments worth recording
+	returns         bool   // record the returned expressions too
 }
 
 const defaultCalls = `(\.|^)(Lock|Unlock|RLock|RUnlock|Do|Wait|Done|Add)$|^(close|delete|panic|make)$|^heap\.|^time\.After$|\.Close$`
@@ -38,8 +40,10 @@ func exprStr(fset *token.FileSet, e ast.Node) string {
 }
 
 type skel struct {
-	fset  *token.FileSet
-	calls *regexp.Regexp
+	fset    *token.FileSet
+	calls   *regexp.Regexp
+	assigns *regexp.Regexp
+	returns bool
 }
 
 // exprFacts lists sync-relevant facts inside an expression (receives, interesting calls, func literals).
@@ -126,6 +130,19 @@ func (k *skel) stmt(s ast.Stmt) []string {
 		for _, r := range x.Rhs {
 			out = append(out, k.exprFacts(r)...)
 		}
+		if k.assigns != nil {
+			var ls, rs []string
+			for _, l := range x.Lhs {
+				ls = append(ls, exprStr(k.fset, l))
+			}
+			for _, r := range x.Rhs {
+				rs = append(rs, exprStrShort(k.fset, r))
+			}
+			lhs := strings.Join(ls, ", ")
+			if k.assigns.MatchString(lhs) {
+				out = append(out, "assign "+lhs+" "+x.Tok.String()+" "+strings.Join(rs, ", "))
+			}
+		}
 		return out
 	case *ast.DeclStmt:
 		return k.exprFacts(x)
@@ -143,8 +160,13 @@ func (k *skel) stmt(s ast.Stmt) []string {
 		return []string{"defer " + exprStr(k.fset, x.Call)}
 	case *ast.ReturnStmt:
 		var out []string
+		var rs []string
 		for _, r := range x.Results {
 			out = append(out, k.exprFacts(r)...)
+			rs = append(rs, exprStrShort(k.fset, r))
+		}
+		if k.returns && len(rs) > 0 {
+			return append(out, "return "+strings.Join(rs, ", "))
 		}
 		return append(out, "return")
 	case *ast.BranchStmt:
@@ -241,6 +263,10 @@ func emitSkel(b *strings.Builder, sp skelSpec) {
 		pat += "|" + sp.calls
 	}
 	k := &skel{fset: p.fset, calls: regexp.MustCompile(pat)}
+	if sp.assigns != "" {
+		k.assigns = regexp.MustCompile(sp.assigns)
+	}
+	k.returns = sp.returns
 	facts := k.block(fd.Body.List)
 	fmt.Fprintf(b, "/-- skeleton of `%s` `%s` -/\ndef %s : List String := [\n", sp.dir, sp.name, sp.lean)
 	for i, f := range facts {
